@@ -138,7 +138,7 @@ def failing_theorems(lean_file, log):
     rel = os.path.relpath(lean_file, LEAN)
     lines = open(lean_file, encoding='utf8').read().split('\n')
     bad = set()
-    for m in re.finditer(r'error: ' + re.escape(rel) + r':(\d+):\d+', log):
+    for m in re.finditer(r'error: (?:' + re.escape(rel) + '|' + re.escape(os.path.abspath(lean_file)) + r'):(\d+):\d+', log):
         ln = int(m.group(1))
         name = None
         for i in range(min(ln, len(lines)) - 1, -1, -1):
@@ -199,7 +199,9 @@ def build(prop_id, bridge_modules=(), props_modules=None):
             if rc != 0:
                 bad = failing_theorems(bfile, out)
                 if not bad:
-                    bad = names
+                    bad = names or ['<module does not build>']
+                if not names:
+                    res.obligations.append(f'{bm}:<module does not build>')
                 res.failed += [f'{bm}:{n}' for n in bad]
         # 4. grep gate
         res.obligations.append('gate:no-sorry-axiom-native_decide')
